@@ -45,6 +45,7 @@ func main() {
 		verbose  = flag.Bool("v", false, "verbose")
 		noEvid   = flag.Bool("noevidence", false, "do not write the evidence file")
 		replayF  = flag.String("replay", "", "replay one counterexample file natively and exit")
+		updBase  = flag.Bool("update-baseline", false, "record the assertions reached per harness as the reachability baseline (vacuity guard)")
 	)
 	flag.Parse()
 	t0 := time.Now()
@@ -175,6 +176,12 @@ func main() {
 	exploreS := time.Since(t0).Seconds() - loadS
 
 	// ---- gather
+	baseline := map[string][]string{}
+	basePath := filepath.Join(hdir, "clauses.json")
+	if bz, err := os.ReadFile(basePath); err == nil {
+		json.Unmarshal(bz, &baseline)
+	}
+	newBase := map[string][]string{}
 	total := newStats()
 	var inconclusive []string
 	var viols, wits []Violation
@@ -186,13 +193,22 @@ func main() {
 		}
 		// vacuity guards: every assertion written in the harness was reached on some feasible path,
 		// and some path ran to the end
-		cl := map[string]bool{}
-		staticClauses(hpkg.Func(n), map[*ssa.Function]bool{}, cl)
-		for c := range cl {
+		for _, c := range baseline[n] {
 			if hr.Stats.Asserts[n+"/"+c] == 0 {
-				inconclusive = append(inconclusive, fmt.Sprintf("%s: assertion %q not reached on any feasible path (vacuous)", n, c))
+				inconclusive = append(inconclusive, fmt.Sprintf("%s: assertion %q not reached on any feasible path (vacuous; it is reached on the reference tree)", n, c))
 			}
 		}
+		if _, ok := baseline[n]; !ok && !*updBase {
+			inconclusive = append(inconclusive, n+": no reachability baseline recorded for this harness (run symgo -update-baseline)")
+		}
+		var reached []string
+		for k := range hr.Stats.Asserts {
+			if strings.HasPrefix(k, n+"/") {
+				reached = append(reached, strings.TrimPrefix(k, n+"/"))
+			}
+		}
+		sort.Strings(reached)
+		newBase[n] = reached
 		if hr.Stats.Completed == 0 {
 			inconclusive = append(inconclusive, n+": no path ran to completion (vacuous)")
 		}
@@ -204,6 +220,14 @@ func main() {
 				logf("   panic observed: %s x%d", k, hr.Stats.Panics[k])
 			}
 		}
+	}
+
+	if *updBase {
+		for k, v := range newBase {
+			baseline[k] = v
+		}
+		js, _ := json.MarshalIndent(baseline, "", " ")
+		os.WriteFile(basePath, js, 0o644)
 	}
 
 	// ---- group counterexamples: one representative per (harness, clause, finding)
